@@ -54,3 +54,90 @@ Proof.
   apply andb_true_iff in G as [_ G]. exists out. split; [reflexivity|].
   unfold access_reported. eapply all2b_Forall2; [|exact G]. intros a o; apply access_ok_sound.
 Qed.
+
+(* ---------------------------------------------------------------- what must not change: no run without the flag *)
+Lemma mapi_Forall {A B} (P : B -> Prop) (f : nat -> A -> B) : (forall i x, P (f i x)) -> forall l k, Forall P (mapi f k l).
+Proof. intros H l. induction l as [|x r IH]; intros k; simpl; constructor; auto. Qed.
+
+Definition no_run (o : op_rw) : Prop := o_clc o = 0 /\ test (o_flags o) fConsecutive = false.
+
+Lemma test_lor_false a b f : test a f = false -> test b f = false -> test (N.lor a b) f = false.
+Proof.
+  unfold test. intros Ha Hb. apply negb_false_iff, N.eqb_eq in Ha. apply negb_false_iff, N.eqb_eq in Hb.
+  apply negb_false_iff, N.eqb_eq. rewrite N.land_lor_distr_l, Ha, Hb. reflexivity.
+Qed.
+
+Lemma rw_flag_no_consecutive e : e <= 3 -> test (clear e fZExt) fConsecutive = false.
+Proof.
+  intros H. assert (C : e = 0 \/ e = 1 \/ e = 2 \/ e = 3) by lia. destruct C as [-> | [-> | [-> | ->]]]; reflexivity.
+Qed.
+
+Lemma base_no_run e : e <= 3 -> no_run (a64_base_op e).
+Proof. intros H. split; [reflexivity | apply rw_flag_no_consecutive; exact H]. Qed.
+
+Lemma mem_flags_no_run o b x off pp : no_run o -> no_run (a64_mem_flags o b x off pp).
+Proof.
+  intros [C F]. unfold a64_mem_flags.
+  destruct b; [destruct ((x || off) && pp)|]; destruct x; cbn [add_flags o_clc o_flags]; split; try exact C;
+    repeat apply test_lor_false; try exact F; reflexivity.
+Qed.
+
+(* an instruction without the consecutive flag (or with at most two operands) that is not tbl/tbx never reports a register run *)
+Lemma a64_no_run_reported T id ops out :
+  a64_query_rw_info T id ops = Some out ->
+  let real := N.land id (at_real_id_mask T) in
+  let row := nthN (at_inst T) real {| ai_rw := 0; ai_flags := 0 |} in
+  (test (ai_flags row) (at_consecutive T) && Nat.ltb 2 (length ops)) = false ->
+  existsb (N.eqb real) (at_tbl_ids T) = false ->
+  (forall e, In e (nthN (at_rwx T) (ai_rw row) []) -> e <= 3) ->
+  Forall no_run (i_ops out).
+Proof.
+  intros H real row Hc Ht Hr. unfold a64_query_rw_info in H. fold real in H. fold row in H.
+  destruct (negb (real <? N.of_nat (length (at_inst T)))); [discriminate|].
+  destruct (Nat.ltb 6 (length ops)); [discriminate|].
+  rewrite Hc in H. cbn [negb andb] in H. rewrite Ht in H. cbn [andb] in H.
+  injection H as <-. cbn [i_ops].
+  apply mapi_Forall. intros i src.
+  assert (E : nth i (nthN (at_rwx T) (ai_rw row) []) 0 <= 3).
+  { destruct (nth_in_or_default i (nthN (at_rwx T) (ai_rw row) []) 0) as [I | ->]; [apply Hr; exact I | lia]. }
+  destruct src as [|[[et idx]|]|b x off pp|]; cbn [a_is_reg_or_mem negb]; try (split; reflexivity).
+  - destruct (base_no_run _ E) as [C F]. split; [exact C | exact F].
+  - apply base_no_run; exact E.
+  - apply mem_flags_no_run, base_no_run; exact E.
+Qed.
+
+(* ---------------------------------------------------------------- the consecutive path, unbounded *)
+Lemma nth_mapi {A B} (f : nat -> A -> B) (da : A) (db : B) : forall l k i, (i < length l)%nat ->
+  nth i (mapi f k l) db = f (k + i)%nat (nth i l da).
+Proof.
+  induction l as [|x r IH]; intros k i Hi; simpl in Hi; [lia|].
+  destruct i as [|i]; simpl.
+  - rewrite Nat.add_0_r. reflexivity.
+  - rewrite IH by lia. f_equal. lia.
+Qed.
+
+Lemma test_add_self o f : N.land f f <> 0 -> test (o_flags (add_flags o f)) f = true.
+Proof.
+  intros H. unfold test. cbn [add_flags o_flags]. apply negb_true_iff, N.eqb_neq. intros C. apply H.
+  rewrite N.land_lor_distr_l in C. apply N.lor_eq_0_iff in C. apply C.
+Qed.
+
+(* the consecutive path (ld1-4, st1-4, casp family), for ALL tables and operand lists: with more than two operands of a flagged instruction, a register
+   at position 0 leads a run of (operand count - 1) registers and every later register operand is flagged kConsecutive *)
+Lemma a64_flagged_run_reported T id ops out :
+  a64_query_rw_info T id ops = Some out ->
+  let real := N.land id (at_real_id_mask T) in
+  let row := nthN (at_inst T) real {| ai_rw := 0; ai_flags := 0 |} in
+  test (ai_flags row) (at_consecutive T) = true -> (2 < length ops)%nat ->
+  (forall e, nth 0 ops ANone = AReg e -> o_clc (nth 0 (i_ops out) op_zero) = u8 (N.of_nat (length ops - 1))) /\
+  (forall i e, (0 < i < length ops)%nat -> nth i ops ANone = AReg e -> test (o_flags (nth i (i_ops out) op_zero)) fConsecutive = true).
+Proof.
+  intros H real row Hf Hn. unfold a64_query_rw_info in H. fold real in H. fold row in H.
+  destruct (negb (real <? N.of_nat (length (at_inst T)))); [discriminate|].
+  destruct (Nat.ltb 6 (length ops)); [discriminate|].
+  rewrite Hf in H. assert (L : Nat.ltb 2 (length ops) = true) by (apply Nat.ltb_lt; exact Hn). rewrite L in H.
+  cbn [andb negb] in H. injection H as <-. cbn [i_ops]. split.
+  - intros e E. rewrite (nth_mapi _ ANone op_zero) by lia. rewrite E. cbn [a_is_reg_or_mem negb Nat.add Nat.eqb]. reflexivity.
+  - intros i e Hi E. rewrite (nth_mapi _ ANone op_zero) by lia. rewrite E. cbn [a_is_reg_or_mem negb Nat.add].
+    destruct i as [|i]; [lia|]. cbn [Nat.eqb]. apply test_add_self. discriminate.
+Qed.
